@@ -148,7 +148,12 @@ class FnView:
     def err_nodes(self, bb):
         d = self.disp(bb)
         if d["kind"] in ("try", "matched"):
-            return self.pg.edge_node(d["switch_bb"], d["err"])
+            out = self.pg.edge_node(d["switch_bb"], d["err"])
+            if d["kind"] == "try":
+                # the Break arm of a `?` only converts and returns the residual: the whole block is an error exit
+                # (it may also be entered directly by a threaded error return of an inlined helper)
+                out = out + [self.pg.entry_of(d["err"])]
+            return out
         return []
 
     def all_err_nodes(self):
@@ -157,6 +162,13 @@ class FnView:
         out = []
         for bb in self.calls:
             out += self.err_nodes(bb)
+        # every `?` in the function, whatever produced the value it is applied to
+        from cg import _switch_on_discr
+        for bb, c in self.calls.items():
+            if c.name.endswith("as std::ops::Try>::branch") and c.term.get("target") is not None and not c.term["dest"]["proj"]:
+                m = _switch_on_discr(self.fn, c.term["target"], c.term["dest"]["local"])
+                if m is not None and 1 in m:
+                    out += self.pg.edge_node(c.term["target"], m[1]) + [self.pg.entry_of(m[1])]
         for bb, blk in enumerate(self.fn.blocks):
             if blk["cleanup"]:
                 continue
